@@ -120,6 +120,8 @@ def key_from(prop, what, view, g, cls, variant, vec=None):
             return "C02:Parse:%s:%s:%s" % (what, g, cls)
         return "C02:%s.%s" % (view, g)                          # getter
     if prop == "C16":
+        if what == "allocs" and vec is not None and vec.get("fam") == "allocset":
+            return "C16:allocs:interleaved:%s" % g
         if what == "allocs" and vec is not None:
             x = vec.get("x", {})
             return "C16:allocs:payload%s:%s:%s:log-%s" % (x.get("o", {}).get("id", "?"), vec.get("status", "?"), x.get("quiet", "none"), x.get("log", "error"))
@@ -339,7 +341,7 @@ def short(vec):
             keep.update({"status": vec.get("status"), "quiet": vec.get("x", {}).get("quiet"), "log": vec.get("x", {}).get("log")})
         return json.dumps(keep, sort_keys=True)
     c = vec.get("c", {})
-    return json.dumps({k: c[k] for k in c if k in ("view", "len", "set", "raw", "g", "pattern", "bytes")}, sort_keys=True)
+    return json.dumps({k: c[k] for k in c if k in ("view", "len", "set", "raw", "g", "pattern", "bytes", "name", "hosts", "families")}, sort_keys=True)[:700]
 
 
 ASSUMPTIONS = [
